@@ -1,6 +1,6 @@
 #!/bin/bash
 # usage: tools/seed_matrix.sh [ID ...]  — runs the quick check of each property against every seeded change under
-# /verif/seeded/<ID>/<V>/patch.diff in a scratch worktree and records the outcome in seeded/<ID>/<V>/detect.json
+# /verif/seeded/<ID>/<V>/patch.diff (ONLY=<V> restricts to one change) in a scratch worktree and records the outcome in seeded/<ID>/<V>/detect.json
 cd /verif
 IDS="$@"
 [ -z "$IDS" ] && IDS=$(ls seeded)
@@ -9,6 +9,7 @@ for ID in $IDS; do
   for D in seeded/$ID/*/; do
     V=$(basename $D)
     [ -f $D/patch.diff ] || continue
+    [ -n "$ONLY" ] && [ "$V" != "$ONLY" ] && continue
     WT=/tmp/sm-$ID-$V-$$
     git -C /repo worktree add --detach $WT HEAD >/dev/null 2>&1 || continue
     if ! ( cd $WT && git apply /verif/$D/patch.diff ) 2>/dev/null; then
